@@ -10,7 +10,11 @@ m = '%s/out/m%s' % (wt, k)
 dst = '/verif/seeded/%s-%sm%s' % (prop, tag + '-' if tag else '', k)
 RP = os.environ.get('MSIM_REPO', '/repo')
 VT = os.environ.get('MSIM_VERIF', '/verif')  # a frozen snapshot of /verif may run the checks while /verif itself is being edited
-conf = subprocess.run([VT + '/tools/confirm_seed.sh', wt, m], stdout=subprocess.PIPE, stderr=subprocess.STDOUT, text=True).stdout.strip()
+cached = os.path.join(m, 'confirm.txt')  # written by an earlier (parallel, background) run of confirm_seed.sh in the same worktree
+if os.environ.get('MSIM_CONFIRM_CACHED') and os.path.exists(cached):
+    conf = open(cached).read().strip()
+else:
+    conf = subprocess.run([VT + '/tools/confirm_seed.sh', wt, m], stdout=subprocess.PIPE, stderr=subprocess.STDOUT, text=True).stdout.strip()
 print('confirm:', conf)
 ok = 'demo_clean_rc=0' in conf and 'demo_mutated_rc=0' not in conf and '100% tests passed, 0 tests failed out of 78' in conf and 'build_rc=0' in conf
 results = {}
